@@ -311,11 +311,15 @@ func (m *vfC04Model) allowed(cid string, addr netip.Addr) (d vfC04Decision, ok m
 	}
 	add(d)
 	strict := len(ok)
-	if addr.Zone() != "" {
-		add(m.decide(cid, addr.WithZone("")))
-	}
-	if addr.Is4In6() {
-		add(m.decide(cid, addr.Unmap()))
+	// A ClientID or an address that is itself a stored identifier resolves to
+	// its owner, full stop; the other readings only matter below that.
+	if d.How != "clientid" && d.How != "ip" {
+		if addr.Zone() != "" {
+			add(m.decide(cid, addr.WithZone("")))
+		}
+		if addr.Is4In6() {
+			add(m.decide(cid, addr.Unmap()))
+		}
 	}
 
 	return d, ok, len(ok) > strict || len(d.Names) > 1
